@@ -27,7 +27,7 @@ var c08Math = map[string]func(float64) float64{
 
 func c08ArgPool() []poolVal {
 	pick := []string{"Null", "Integer(0)", "Integer(1)", "Integer(-1)", "Integer(3)", "Long(9007199254740993)", "Long(7)", "Float(2.5)", "Double(-1.5)", "Double(0.5)",
-		"String(\"abc\")", "String(\"12\")", "Boolean(true)", "DateTime(2020-02-29T13:14:15.123456789Z)", "TimeSpan(1h0m0s)", "Array[1,'a',null]"}
+		"String(\"abc\")", "String(\"12\")", "Boolean(true)", "DateTime(2024-01-01T00:30:00+05:00)", "TimeSpan(1h0m0s)", "Array[1,'a',null]"}
 	out := []poolVal{}
 	for _, l := range pick {
 		found := false
